@@ -34,6 +34,8 @@ func runC17(c *Ctx) {
 	ruleOpenFlags(c, "C17.10")
 	ruleNoDestructiveFS(c, "C17.11")
 	ruleRecoveryVisitsAll(c, "C17.12")
+	ruleNoLoopVarCapture(c, "C17.13", "storage", "engine")
+	ruleReplayUnconditional(c, "C17.14")
 }
 
 func c17Paths(c *Ctx, rule string) {
